@@ -98,6 +98,11 @@ theorem sumRange_sq_nonneg {K : Type} [Field K] [LinearOrder K] [IsStrictOrdered
   rw [sumRange_eq]
   exact Finset.sum_nonneg fun k _ => mul_self_nonneg _
 
+/-- contract of `np.sqrt` (and so of `np.linalg.norm`) on non-negative numbers -/
+structure IsSqrt {K : Type} [Field K] [LinearOrder K] (sqrtf : K → K) : Prop where
+  nonneg : ∀ x, 0 ≤ x → 0 ≤ sqrtf x
+  sq : ∀ x, 0 ≤ x → sqrtf x * sqrtf x = x
+
 /-! ### Python `int()` on ℚ -/
 
 theorem ratTrunc_nonneg (x : ℚ) (hx : 0 ≤ x) : ratTrunc x = ⌊x⌋ := by
